@@ -110,10 +110,26 @@ func fullNode(tag string, n int) *sbom.Node {
 	return x
 }
 
+// aliasedNode: the same *Person object is referenced twice inside one contact tree and by two suppliers, and one
+// external reference is listed twice (values need not be trees).
+func aliasedNode() *sbom.Node {
+	bob := &sbom.Person{Name: "bob", Email: "bob@example.com"}
+	team := &sbom.Person{Name: "team", IsOrg: true, Contacts: []*sbom.Person{bob, bob}}
+	ref := &sbom.ExternalReference{Url: "https://x", Type: sbom.ExternalReference_VCS, Hashes: map[int32]string{1: "aa"}}
+	n := &sbom.Node{Id: "al", Name: "aliased", Suppliers: []*sbom.Person{team, {Name: "other", Contacts: []*sbom.Person{bob}}}, Originators: []*sbom.Person{team}, ExternalReferences: []*sbom.ExternalReference{ref, ref}}
+	spareNode(n)
+	return n
+}
+
+func aliasedPerson() *sbom.Person {
+	bob := &sbom.Person{Name: "bob"}
+	return &sbom.Person{Name: "team", Contacts: []*sbom.Person{bob, {Name: "mid", Contacts: []*sbom.Person{bob}}, bob}}
+}
+
 func kinds() []copyKind {
 	return []copyKind{
 		{"Node", func() map[string]proto.Message {
-			return map[string]proto.Message{"full": fullNode("A", 2), "sparse": &sbom.Node{Id: "n", Name: "s", Suppliers: []*sbom.Person{{Name: "sup"}}}, "empty": &sbom.Node{}, "new": sbom.NewNode()}
+			return map[string]proto.Message{"full": fullNode("A", 2), "sparse": &sbom.Node{Id: "n", Name: "s", Suppliers: []*sbom.Person{{Name: "sup"}}}, "empty": &sbom.Node{}, "new": sbom.NewNode(), "aliased": aliasedNode()}
 		}, func(m proto.Message) proto.Message { return m.(*sbom.Node).Copy() },
 			func(a, b proto.Message) (bool, bool) { return a.(*sbom.Node).Equal(b.(*sbom.Node)), true }},
 		{"Edge", func() map[string]proto.Message {
@@ -124,7 +140,7 @@ func kinds() []copyKind {
 			p := &sbom.Person{}
 			gen.Full(p, "A", 2)
 			sparePerson(p)
-			return map[string]proto.Message{"full": p, "plain": &sbom.Person{Name: "x", Email: "e"}, "empty": &sbom.Person{}}
+			return map[string]proto.Message{"full": p, "plain": &sbom.Person{Name: "x", Email: "e"}, "empty": &sbom.Person{}, "aliased": aliasedPerson()}
 		}, func(m proto.Message) proto.Message { return m.(*sbom.Person).Copy() },
 			func(a, b proto.Message) (bool, bool) { return false, false }},
 		{"ExternalReference", func() map[string]proto.Message {
@@ -157,6 +173,10 @@ func operand(name string) *sbom.NodeList {
 		nl = &sbom.NodeList{Nodes: []*sbom.Node{n("b", "B"), n("c", "B"), n("d", "B")}, Edges: []*sbom.Edge{e("b", sbom.Edge_dependsOn, "d"), e("c", sbom.Edge_contains, "d", "b")}, RootElements: []string{"d", "b"}}
 	case "ae":
 		nl = &sbom.NodeList{Nodes: []*sbom.Node{n("a", "C"), n("e", "C")}, Edges: []*sbom.Edge{e("a", sbom.Edge_contains, "e")}, RootElements: []string{"e"}}
+	case "a-aliased":
+		x := aliasedNode()
+		x.Id = "a"
+		nl = &sbom.NodeList{Nodes: []*sbom.Node{x}, RootElements: []string{"a"}}
 	case "a-sparse":
 		nl = &sbom.NodeList{Nodes: []*sbom.Node{{Id: "a", Name: "only-name"}}, RootElements: []string{"a"}}
 	case "empty":
@@ -167,7 +187,7 @@ func operand(name string) *sbom.NodeList {
 	return spareList(nl)
 }
 
-var operandNames = []string{"abc", "bcd", "ae", "a-sparse", "empty"}
+var operandNames = []string{"abc", "bcd", "ae", "a-sparse", "a-aliased", "empty"}
 
 // listDeviations enumerates deviations at every field path of a node list: the
 // list's own fields, every node (full recursion), every edge.
